@@ -75,10 +75,10 @@ Proof. intro I. dI I. constructor; simpl; auto. Qed.
 
 Lemma stepF_main sg s e s' t :
   InvF s -> fstep sg s e = Some s' ->
-  ((exists f, e = FEPrepare t f) \/ e = FECommit t \/ (exists f, e = FEPut t f) \/ (exists f, e = FEDel t f) \/ e = FEPutLost t) ->
+  ((exists f, e = FEPrepare t f) \/ e = FECommit t \/ (exists f, e = FEPut t f) \/ (exists f, e = FEDel t f) \/ e = FEPutLost t \/ e = FEDelLost t) ->
   InvF s'.
 Proof.
-  intros I H [[f ->]|[->|[[f ->]|[[f ->]| ->]]]]; simpl in H.
+  intros I H [[f ->]|[->|[[f ->]|[[f ->]|[->| ->]]]]]; simpl in H.
   - destruct (f_pcs s t) eqn:Hpc; try discriminate. injection H as <-.
     unfold fset_pc. apply invF_pre; auto; try (rewrite Hpc; reflexivity). discriminate.
   - destruct (f_pcs s t) as [|c0|g| |old|nw o|oi ap|r k|r|r|r] eqn:Hpc; try discriminate.
@@ -102,6 +102,10 @@ Proof.
     assert (Hp : fpre (f_pcs s t) = true) by (rewrite Hpc; reflexivity).
     assert (Hq : fpost (f_pcs s t) = true) by (rewrite Hpc; reflexivity).
     destruct f; injection H as <-; unfold fnotify, fset_reg; simpl; apply invF_enter; auto.
+  - destruct (f_pcs s t) as [|c0|g| |old|nw o|oi ap|r k|r|r|r] eqn:Hpc; try discriminate.
+    assert (Hp : fpre (f_pcs s t) = true) by (rewrite Hpc; reflexivity).
+    assert (Hq : fpost (f_pcs s t) = true) by (rewrite Hpc; reflexivity).
+    injection H as <-; unfold fnotify, fset_reg; simpl; apply invF_enter; auto.
   - destruct (f_pcs s t) as [|c0|g| |old|nw o|oi ap|r k|r|r|r] eqn:Hpc; try discriminate.
     assert (Hp : fpre (f_pcs s t) = true) by (rewrite Hpc; reflexivity).
     assert (Hq : fpost (f_pcs s t) = true) by (rewrite Hpc; reflexivity).
